@@ -54,6 +54,30 @@ def two_writer_cases(out=None):
     return cases, impl
 
 
+def close_cases(out=None):
+    """the single-writer programs of the hook in which the stream is closed under the writer (a 'D' thread) ->
+    (cases for model 12, implementation outcome sets in the model's encoding)"""
+    res, _, _ = loom_outcomes()
+    cases, impl = [], []
+    for key in sorted(res):
+        name, outs = res[key]
+        if "D" not in name.split("|"):
+            continue
+        cases.append("12 %d %d %d %d" % key)
+        impl.append(" ".join(str(x) for o in sorted(outs) for x in o))
+    if not cases:
+        raise C.Failure("the writer-versus-close loom programs did not run (hook missing or build failed)")
+    return cases, impl
+
+
+def close_violation(impl):
+    for o in sorted(decode_sets(impl)):
+        w = violates(o)
+        if w:
+            return w
+    return None
+
+
 def two_writer_violation(case, impl):
     """conservation on every final outcome of a two-writer program"""
     t = [int(x) for x in case.split()]
